@@ -369,6 +369,11 @@ impl<T: RealNumber> DecisionTreeRegressor<T> {
         if mtry < n_attr {
             variables.shuffle(rng);
         }
+        #[cfg(smartcore_verif)]
+        VERIF_TREE_VARS.with(|v| {
+            v.borrow_mut()
+                .push((visitor.node, variables.iter().take(mtry).cloned().collect()))
+        });
 
         let parent_gain =
             T::from(n).unwrap() * self.nodes[visitor.node].output * self.nodes[visitor.node].output;
@@ -509,6 +514,30 @@ impl<T: RealNumber> DecisionTreeRegressor<T> {
         }
 
         true
+    }
+}
+
+#[cfg(smartcore_verif)]
+thread_local! {
+    /// verification hook: (node id, features tried in order) of every split search that reached the feature loop
+    pub static VERIF_TREE_VARS: std::cell::RefCell<Vec<(usize, Vec<usize>)>> = std::cell::RefCell::new(Vec::new());
+}
+
+#[cfg(smartcore_verif)]
+impl<T: RealNumber> DecisionTreeRegressor<T> {
+    /// verification hook: `fit_weak_learner` with explicit sample counts, `mtry` and a seeded generator
+    pub fn verif_fit_weak_learner<M: Matrix<T>>(
+        x: &M,
+        y: &M::RowVector,
+        samples: Vec<usize>,
+        mtry: usize,
+        parameters: DecisionTreeRegressorParameters,
+        seed: u64,
+    ) -> Result<DecisionTreeRegressor<T>, Failed> {
+        use rand::SeedableRng;
+        let mut rng = rand::rngs::StdRng::seed_from_u64(seed);
+        VERIF_TREE_VARS.with(|v| v.borrow_mut().clear());
+        DecisionTreeRegressor::fit_weak_learner(x, y, samples, mtry, parameters, &mut rng)
     }
 }
 
